@@ -360,7 +360,7 @@ impl Prop for C07 {
                "assumptions": ["image layers (role Image with sixel data) are not generated", "font slot 0 is always present (the embedded preview is rendered with it)"]})
     }
     fn total(&mut self, ctx: &Ctx) -> u64 {
-        ctx.tier.pick(2_000, 60_000)
+        ctx.tier.pick(10_000, 60_000)
     }
     fn run_case(&mut self, ctx: &mut Ctx, k: u64) {
         let mut rng = ctx.rng(k);
